@@ -436,6 +436,10 @@ class TRSpec(object):
     def c_should_sample(self, ex, st, args, kw, node, star, dstar):
         """ghost only: remember the inputs of the sampling decision, then execute the real body (inlined, no contract assumed)"""
         st.g['decision'] = (truthy(args[3]), num(st.rd(args[2], 'sampling_rate')))
+        # C09 (a failure inside the framework leaves the recorder idle): the per-run state is already reset when the decision is taken
+        cnt_ = st.rd(args[0], '_invoke_counter')
+        st.g['idle_at_decision'] = z3.And(st.rd(args[0], '_active_recording') == NONE, st.rd(args[0], '_active_recording_parameters') == NONE,
+                                          st.rd(args[0], '_force_sample') == B(False), st.g['ddom'][Val.addr(cnt_)] == z3.K(Val, False))
         n_, kind, dc = self.repo.method('TapeRecorder', '_should_sample_active_recording')
         return call_function(ex, st, n_, self.repo.classes[dc][0], dc, None, args, kw, '_should_sample_active_recording', star, dstar)
 
